@@ -277,6 +277,26 @@ httpCloseSock(rfbScreenInfoPtr rfbScreen)
  * httpProcessInput is called when input is received on the HTTP socket.
  */
 
+/*
+ * Write to the HTTP client unless an earlier write of this response has
+ * already failed: every rfbWriteExact() to a client that has stopped reading
+ * waits rfbMaxClientWait again, and all of this happens inside the event loop.
+ */
+
+static rfbBool httpWriteFailed = FALSE;
+
+static int
+httpWrite(const char *data, int len)
+{
+    if (httpWriteFailed)
+	return -1;
+    if (rfbWriteExact(&cl, data, len) < 0) {
+	httpWriteFailed = TRUE;
+	return -1;
+    }
+    return 1;
+}
+
 static void
 httpProcessInput(rfbScreenInfoPtr rfbScreen)
 {
@@ -464,7 +484,8 @@ httpProcessInput(rfbScreenInfoPtr rfbScreen)
         return;
     }
 
-    rfbWriteExact(&cl, OK_STR, strlen(OK_STR));
+    httpWriteFailed = FALSE;
+    httpWrite(OK_STR, strlen(OK_STR));
     char *ext = strrchr(fname, '.');
     char *contentType = "";
     if(ext && strcasecmp(ext, ".vnc") == 0)
@@ -475,9 +496,9 @@ httpProcessInput(rfbScreenInfoPtr rfbScreen)
 	contentType = "Content-Type: image/svg+xml\r\n";
     else if(ext && strcasecmp(ext, ".js") == 0)
 	contentType = "Content-Type: application/javascript\r\n";
-    rfbWriteExact(&cl, contentType, strlen(contentType));
+    httpWrite(contentType, strlen(contentType));
     /* end the header */
-    rfbWriteExact(&cl, "\r\n", 2);
+    httpWrite("\r\n", 2);
 
     while (1) {
 	int n = fread(buf, 1, BUF_SIZE-1, fd);
@@ -503,74 +524,74 @@ httpProcessInput(rfbScreenInfoPtr rfbScreen)
 	    buf[n] = 0; /* make sure it's null-terminated */
 
 	    while ((dollar = strchr(ptr, '$'))!=NULL) {
-		rfbWriteExact(&cl, ptr, (dollar - ptr));
+		httpWrite(ptr, (dollar - ptr));
 
 		ptr = dollar;
 
 		if (compareAndSkip(&ptr, "$WIDTH")) {
 
 		    sprintf(str, "%d", rfbScreen->width);
-		    rfbWriteExact(&cl, str, strlen(str));
+		    httpWrite(str, strlen(str));
 
 		} else if (compareAndSkip(&ptr, "$HEIGHT")) {
 
 		    sprintf(str, "%d", rfbScreen->height);
-		    rfbWriteExact(&cl, str, strlen(str));
+		    httpWrite(str, strlen(str));
 
 		} else if (compareAndSkip(&ptr, "$APPLETWIDTH")) {
 
 		    sprintf(str, "%d", rfbScreen->width);
-		    rfbWriteExact(&cl, str, strlen(str));
+		    httpWrite(str, strlen(str));
 
 		} else if (compareAndSkip(&ptr, "$APPLETHEIGHT")) {
 
 		    sprintf(str, "%d", rfbScreen->height + 32);
-		    rfbWriteExact(&cl, str, strlen(str));
+		    httpWrite(str, strlen(str));
 
 		} else if (compareAndSkip(&ptr, "$PORT")) {
 
 		    sprintf(str, "%d", rfbScreen->port);
-		    rfbWriteExact(&cl, str, strlen(str));
+		    httpWrite(str, strlen(str));
 
 		} else if (compareAndSkip(&ptr, "$DESKTOP")) {
 
-		    rfbWriteExact(&cl, rfbScreen->desktopName, strlen(rfbScreen->desktopName));
+		    httpWrite(rfbScreen->desktopName, strlen(rfbScreen->desktopName));
 
 		} else if (compareAndSkip(&ptr, "$DISPLAY")) {
 
 		    sprintf(str, "%s:%d", rfbScreen->thisHost, rfbScreen->port-5900);
-		    rfbWriteExact(&cl, str, strlen(str));
+		    httpWrite(str, strlen(str));
 
 		} else if (compareAndSkip(&ptr, "$USER")) {
 #ifndef WIN32
 		    if (user) {
-			rfbWriteExact(&cl, user,
+			httpWrite(user,
 				   strlen(user));
 		    } else
 #endif
-			rfbWriteExact(&cl, "?", 1);
+			httpWrite("?", 1);
 		} else if (compareAndSkip(&ptr, "$PARAMS")) {
 		    if (params[0] != '\0')
-			rfbWriteExact(&cl, params, strlen(params));
+			httpWrite(params, strlen(params));
 		} else {
 		    if (!compareAndSkip(&ptr, "$$"))
 			ptr++;
 
-		    if (rfbWriteExact(&cl, "$", 1) < 0) {
+		    if (httpWrite("$", 1) < 0) {
 			fclose(fd);
 			httpCloseSock(rfbScreen);
 			return;
 		    }
 		}
 	    }
-	    if (rfbWriteExact(&cl, ptr, (&buf[n] - ptr)) < 0)
+	    if (httpWrite(ptr, (&buf[n] - ptr)) < 0)
 		break;
 
 	} else {
 
 	    /* For files not ending .vnc, just write out the buffer */
 
-	    if (rfbWriteExact(&cl, buf, n) < 0)
+	    if (httpWrite(buf, n) < 0)
 		break;
 	}
     }
